@@ -5,6 +5,7 @@ use anchor_lang::prelude::*;
 use gmsol_model::{price::{Price, Prices}, MarketAction, SwapMarketMutExt};
 use gmsol_programs::model::MarketModel;
 use gmsol_store::states::{Deposit, Market, Seed};
+use crate::svm::meta as _meta_unused;
 use gmsol_store::states::common::action::Action;
 use gmsol_utils::action::ActionState;
 use mc_core::{e1, json, Cli, Report};
@@ -318,7 +319,7 @@ fn check_path(x: &X, db0: &Db, pidx: &[usize], token: Pubkey, amount: u64, tampe
 pub fn run(cli: &Cli) -> Report {
     let mut rep = Report::new(cli, "exploration");
     rep.rule("E1 over swap paths: every sequence of 0..=3 markets out of five (A|A/B, B|A/B, C|B/C, C|A/C, B|B/A; so paths with duplicates, non-chaining paths and paths through the deposit market itself all occur) x initial token in {A,B,C} x amounts, as the long-side swap path of a real create_deposit + execute_deposit into the first market: creation must accept exactly the duplicate-free paths that chain from the initial token into the market's long token; after a completed execution recorded balances and vault balances move together, markets outside the path are untouched, and each declared hop moved exactly the amounts the (C40-validated) SDK swap computes, in order; stored paths tampered to contain a duplicate (adjacent: [p,p,..]; revisiting: [p,q,p] over one token pair, where every hop chains) must not execute; non-trivial = the deposit was created");
-    rep.assume("svm-lite runtime trusted; paths of length 4..10 and secondary (short-side) paths, withdrawals and orders use the same SwapMarkets code and are not enumerated");
+    rep.assume("svm-lite runtime trusted; paths of length 4..10 and swap orders use the same SwapMarkets code and are not enumerated. Second section: real create/execute withdrawal from the first market with every pair of (long-side path, short-side path) of length 0..=2 over the four other markets: creation accepts exactly the pairs whose paths chain without a repeated market; after completion the recorded balances of every market moved exactly as the withdrawal followed by the two declared paths implies (SDK model threaded through both sides in order), and the escrow received the reference amounts");
     let (db, x) = build();
     if let Some(rv) = &cli.replay {
         let pidx: Vec<usize> = rv["path"].as_array().map(|a| a.iter().map(|v| v.as_u64().unwrap_or(0) as usize).collect()).unwrap_or_default();
@@ -366,6 +367,194 @@ pub fn run(cli: &Cli) -> Report {
     if counters.get("executed").copied().unwrap_or(0) == 0 {
         rep.machinery("vacuous exploration: no swap path was executed");
     }
+    withdrawals(&mut rep, &x, &db, th);
     gmsol_programs::model::clock_verif::set_now(None);
     rep
+}
+
+// ------------------------------------------------------------------ withdrawals: both sides, each with its own path
+
+fn withdrawal_pda(x: &X, owner: &Pubkey, nonce: &[u8; 32]) -> Pubkey {
+    Pubkey::find_program_address(&[gmsol_store::states::Withdrawal::SEED, x.w.store.as_ref(), owner.as_ref(), nonce], &x.w.pid).0
+}
+
+/// withdraw `amount` market tokens of market 0; the long output (A) is swapped along `lp`, the short output (B) along `sp`
+fn check_withdrawal(x: &X, db0: &Db, lp: &[usize], sp: &[usize], amount: u64, sink: &mut e1::Sink) {
+    use gmsol_model::LiquidityMarketMutExt;
+    W::set_time(1_000);
+    gmsol_programs::model::clock_verif::set_now(Some(1_000));
+    let w = &x.w;
+    let m = &x.markets[0];
+    let owner = w.user2;
+    let n = [0x57u8; 32];
+    let rp = || json!({"section": "withdrawal", "long_path": lp, "short_path": sp, "amount": amount});
+    let (lpath, spath): (Vec<&MarketKeys>, Vec<&MarketKeys>) = (lp.iter().map(|i| &x.markets[*i]).collect(), sp.iter().map(|i| &x.markets[*i]).collect());
+    // where each side ends up when the path chains (any final token is allowed for a withdrawal)
+    let end = |path: &[&MarketKeys], start: Pubkey| -> Option<Vec<Pubkey>> {
+        let mut cur = start;
+        let mut seq = vec![cur];
+        let mut seen: Vec<Pubkey> = vec![];
+        for p in path {
+            if seen.contains(&p.market_token) {
+                return None;
+            }
+            seen.push(p.market_token);
+            cur = if p.long == cur && p.short != cur { p.short } else if p.short == cur && p.long != cur { p.long } else { return None };
+            seq.push(cur);
+        }
+        Some(seq)
+    };
+    let (lseq, sseq) = (end(&lpath, m.long), end(&spath, m.short));
+    let (fl, fs) = (lseq.as_ref().map(|s| *s.last().unwrap()).unwrap_or(m.long), sseq.as_ref().map(|s| *s.last().unwrap()).unwrap_or(m.short));
+    let mut db = db0.clone();
+    let wd = withdrawal_pda(x, &owner, &n);
+    for (o, mint) in [(wd, m.market_token), (wd, fl), (wd, fs), (owner, m.market_token)] {
+        w.ensure_ata(&mut db, &o, &mint);
+    }
+    let accounts = gmsol_store::accounts::CreateWithdrawal {
+        owner, receiver: owner, store: w.store, market: m.market, withdrawal: wd, market_token: m.market_token, final_long_token: fl, final_short_token: fs,
+        market_token_escrow: ata(&wd, &m.market_token), final_long_token_escrow: ata(&wd, &fl), final_short_token_escrow: ata(&wd, &fs), market_token_source: ata(&owner, &m.market_token),
+        system_program: sys(), token_program: spl_token::ID, associated_token_program: spl_associated_token_account::ID,
+    };
+    let params = gmsol_store::ops::withdrawal::CreateWithdrawalParams { execution_lamports: 5_000_000, long_token_swap_path_length: lp.len() as u8, short_token_swap_path_length: sp.len() as u8, market_token_amount: amount, min_long_token_amount: 0, min_short_token_amount: 0, should_unwrap_native_token: false };
+    let mut i = ix(w.pid, accounts, gmsol_store::instruction::CreateWithdrawal { nonce: n, params });
+    i.accounts.extend(lpath.iter().chain(spath.iter()).map(|p| meta(p.market, false, false)));
+    let created = process(&mut db, &i, &[owner]);
+    let valid = lseq.is_some() && sseq.is_some();
+    sink.case(created.is_ok());
+    match (&created, valid) {
+        (Ok(()), false) => {
+            sink.fail("C44/invalid_path_accepted_at_creation", format!("withdrawal with long path {lp:?} / short path {sp:?} was created"), rp());
+            return;
+        }
+        (Err(e), true) => {
+            sink.fail("C44/valid_path_rejected_at_creation", format!("withdrawal with long path {lp:?} / short path {sp:?}: {e:?}"), rp());
+            return;
+        }
+        (Err(_), false) => return,
+        _ => {}
+    }
+    let (lseq, sseq) = (lseq.unwrap(), sseq.unwrap());
+    let before = balances(x, &db);
+    // execute
+    let accounts = gmsol_store::accounts::ExecuteWithdrawal {
+        authority: w.keeper, store: w.store, token_map: w.token_map, oracle: w.oracle, market: m.market, withdrawal: wd, market_token: m.market_token, final_long_token: fl, final_short_token: fs,
+        market_token_escrow: ata(&wd, &m.market_token), final_long_token_escrow: ata(&wd, &fl), final_short_token_escrow: ata(&wd, &fs),
+        market_token_vault: w.vault(&m.market_token), final_long_token_vault: w.vault(&fl), final_short_token_vault: w.vault(&fs),
+        token_program: spl_token::ID, system_program: sys(), chainlink_program: None, event_authority: w.event_authority, program: w.pid,
+    };
+    let mut i = ix(w.pid, accounts, gmsol_store::instruction::ExecuteWithdrawal { execution_fee: 5_000, throw_on_execution_error: false });
+    let mut tokens: std::collections::BTreeSet<Pubkey> = [m.index, m.long, m.short].into_iter().collect();
+    for p in lpath.iter().chain(spath.iter()) {
+        tokens.extend([p.index, p.long, p.short]);
+    }
+    i.accounts.extend(tokens.iter().map(|t| meta(feed_of(x, t), false, false)));
+    let mut seen = vec![m.market_token];
+    for p in lpath.iter().chain(spath.iter()) {
+        if !seen.contains(&p.market_token) {
+            seen.push(p.market_token);
+            i.accounts.push(meta(p.market, false, true));
+        }
+    }
+    let executed = process(&mut db, &i, &[w.keeper]);
+    use gmsol_store::states::common::action::Action as _;
+    let state = db.pod::<gmsol_store::states::Withdrawal>(&wd).and_then(|d| d.header().action_state().ok());
+    if executed.is_err() || state != Some(ActionState::Completed) {
+        sink.count("withdrawal_not_completed");
+        if balances(x, &db) != before && state != Some(ActionState::Completed) && executed.is_ok() {
+            sink.fail("C44/cancelled_swap_moved_balances", format!("withdrawal with paths {lp:?} / {sp:?} was cancelled but balances moved"), rp());
+        }
+        return;
+    }
+    sink.count("withdrawals_executed");
+    let after = balances(x, &db);
+    // reference: the SDK model of every market as it was before, threaded through the withdrawal and both paths in order
+    let model_of = |mi: usize| -> MarketModel {
+        let mk = &x.markets[mi];
+        let acc = db0.get(&mk.market);
+        let sdk: gmsol_programs::gmsol_store::accounts::Market = bytemuck::pod_read_unaligned(&acc.data[8..8 + std::mem::size_of::<gmsol_programs::gmsol_store::accounts::Market>()]);
+        MarketModel::from_parts(Arc::new(sdk), world::mint_supply(db0, &mk.market_token))
+    };
+    let prices_of = |mi: usize| -> Prices<u128> {
+        let mk = &x.markets[mi];
+        Prices { index_token_price: unit_price(&db, &feed_of(x, &mk.index)), long_token_price: unit_price(&db, &feed_of(x, &mk.long)), short_token_price: unit_price(&db, &feed_of(x, &mk.short)) }
+    };
+    let mut models: std::collections::BTreeMap<usize, MarketModel> = Default::default();
+    let mut expected: Vec<[i128; 2]> = vec![[0, 0]; x.markets.len()];
+    let mut m0 = model_of(0);
+    let Ok((lo, so)) = m0.withdraw(amount as u128, prices_of(0)).and_then(|a| a.execute()).map(|r| (*r.long_token_output(), *r.short_token_output())) else {
+        sink.count("reference_withdrawal_failed");
+        return;
+    };
+    expected[0][0] -= lo as i128;
+    expected[0][1] -= so as i128;
+    let mut finals = [lo, so];
+    for (side, (path, seq)) in [(lp, &lseq), (sp, &sseq)].into_iter().enumerate() {
+        let mut amt = finals[side];
+        if amt == 0 {
+            continue;
+        }
+        for (h, mi) in path.iter().enumerate() {
+            let mk = &x.markets[*mi];
+            let (tin, tout) = (seq[h], seq[h + 1]);
+            let model = models.entry(*mi).or_insert_with(|| model_of(*mi));
+            let Ok(out) = model.swap(mk.long == tin, amt, prices_of(*mi)).and_then(|a| a.execute()).map(|r| *r.token_out_amount()) else {
+                sink.count("reference_swap_failed");
+                return;
+            };
+            expected[*mi][if mk.long == tin { 0 } else { 1 }] += amt as i128;
+            expected[*mi][if mk.long == tout { 0 } else { 1 }] -= out as i128;
+            amt = out;
+        }
+        finals[side] = amt;
+    }
+    for (mi, e) in expected.iter().enumerate() {
+        let got = [after[mi][0] as i128 - before[mi][0] as i128, after[mi][1] as i128 - before[mi][1] as i128];
+        if got != *e {
+            sink.fail("C44/withdrawal_moved_recorded_balances_of_the_wrong_market", format!("withdrawal of {amount} with long path {lp:?} / short path {sp:?}: market {mi} recorded balances (long token, short token) moved by {got:?}, the declared paths imply {e:?}"), rp());
+        }
+    }
+    // what reached the escrow
+    let (gl, gs) = (token_amount(&db, &ata(&wd, &fl)) as u128, token_amount(&db, &ata(&wd, &fs)) as u128);
+    let want = if fl == fs { (finals[0] + finals[1], finals[0] + finals[1]) } else { (finals[0], finals[1]) };
+    if (gl, gs) != want {
+        sink.fail("C44/withdrawal_paid_a_different_amount", format!("long path {lp:?} / short path {sp:?}: escrow received ({gl}, {gs}), the reference gives {want:?}"), rp());
+    }
+}
+
+fn withdrawals(rep: &mut Report, x: &X, db0: &Db, th: bool) {
+    // the withdrawer's market tokens of market 0 must be in its own account
+    let mut db = db0.clone();
+    W::set_time(1_000);
+    let n = [40u8; 32];
+    let dep = deposit_pda(x, &x.w.user2, &n);
+    let minted = token_amount(&db, &ata(&dep, &x.markets[0].market_token));
+    db.set(ata(&dep, &x.markets[0].market_token), world::token_acc(x.markets[0].market_token, dep, 0));
+    let user_ata = ata(&x.w.user2, &x.markets[0].market_token);
+    let have = token_amount(&db, &user_ata);
+    db.set(user_ata, world::token_acc(x.markets[0].market_token, x.w.user2, have + minted));
+    // paths over the markets other than the withdrawal market, length 0..=2 per side
+    let others: Vec<usize> = (1..x.markets.len()).collect();
+    let mut paths: Vec<Vec<usize>> = vec![vec![]];
+    for a in &others {
+        paths.push(vec![*a]);
+        for b in &others {
+            paths.push(vec![*a, *b]);
+        }
+    }
+    let mut cases = vec![];
+    for l in &paths {
+        for s in &paths {
+            cases.push((l.clone(), s.clone()));
+        }
+    }
+    let amounts: Vec<u64> = if th { vec![1_000_000_000, 37_000_000_001] } else { vec![5_000_000_000] };
+    let counters = e1::run(rep, "withdrawals with a swap path per side", &cases, |(l, s), sink| {
+        for &a in &amounts {
+            check_withdrawal(x, &db, l, s, a, sink);
+        }
+    });
+    if counters.get("withdrawals_executed").copied().unwrap_or(0) == 0 && rep.violations_total() == 0 {
+        rep.machinery("vacuous exploration: no withdrawal with swap paths was executed");
+    }
 }
